@@ -22,9 +22,9 @@
     reports exactly the scanner errors the lazy code has seen.
 
     token.Token -> ParserModel kinds: the five significant kinds; mode 0 never returns another
-    one (FrontEndProofs.front_kinds), [KInvalid] stands for "any other kind" (the parser treats
+    one (FrontEndProofs.front_end_total, clause ff_kinds), [KInvalid] stands for "any other kind" (the parser treats
     every kind it does not expect alike).  Go [int] positions are [Z] in the scanner model and
-    [N] in the AST; lines and columns are at least 1 (FrontEndProofs.stream_good).
+    [N] in the AST; lines and columns are at least 1 (FrontEndProofs.steps_pos, Inv_steps).
 
     Fuel: [S (length bs)] Scan calls (every call that returns a token consumes at least a byte),
     each with the scanner model's own fuel; then the parser model's [S (number of tokens)]. *)
